@@ -1490,4 +1490,11 @@ theorem twoCommits_reach : ReachB 1 (poolCreated.run twoCommits) :=
   ⟨poolCreated, twoCommits, poolCreated_fresh.1, poolCreated_fresh.2, noReset_of_all (by decide), noDrop_of_all (by decide), rfl⟩
 
 
+/-- Client 1 creates branch 0 and starts a commit; it is preempted before its put-if-absent;
+    client 2 deletes pool 1 (DeleteByPrefix); client 1 resumes and is acknowledged. -/
+def removedPoolLabels : List Label :=
+  [.start 1 (.commit 1 0 (.insert 0 0))] ++ List.replicate 3 (.step 1) ++
+  [.start 1 (.bcommit 1 0 0 [5] [])] ++ List.replicate 7 (.step 1) ++
+  [.start 2 (.delPool 1), .step 2] ++ List.replicate 2 (.step 1)
+
 end Zed.Store
